@@ -22,6 +22,7 @@ import Ajson.Proofs.AppendMany
 import Ajson.Proofs.SetNodeValue
 import Ajson.Proofs.AppendManyValue
 import Ajson.Proofs.SetArrayValue
+import Ajson.Proofs.SetObjectValue
 import Ajson.Model.Decode
 
 namespace Ajson.Props.C05
@@ -222,6 +223,17 @@ theorem C05_set_array_assigns_the_list {h : Heap} (hs : Struct h) (ha : Acyc h) 
     (∀ m : Id, ¬ Anc h m n → absVal fuel (h.update (some n) (.arr ids)).1 m = absVal fuel h m) ∧
     (∀ ys, ids.mapM (fun v => absVal fuel h v) = some ys → absVal (fuel + 1) (h.update (some n) (.arr ids)).1 n = some (.arr ys)) :=
   setArray_refines hs ha n hn ids hnd hids fuel
+
+/-- **SetObject is assignment of an object**: for members under pairwise different keys whose values are pairwise different nodes, each
+fresh, detached or a child of the receiver itself, the receiver afterwards denotes the object with exactly these members, in the order
+given; every node off the receiver's ancestor chain keeps its value -/
+theorem C05_set_object_assigns_the_members {h : Heap} (hs : Struct h) (ha : Acyc h) (n : Nat) (hn : n < h.size) (kv : List (Bytes × Id))
+    (hndk : (kv.map (·.1)).Nodup) (hndv : (kv.map (·.2)).Nodup)
+    (hkv : ∀ p ∈ kv, (p.2 : Nat) < h.size ∧ ¬ Anc h p.2 n ∧ ((h.get p.2).parent = none ∨ (h.get p.2).parent = some n)) (fuel : Nat) :
+    (∀ m : Id, ¬ Anc h m n → absVal fuel (h.update (some n) (.obj kv)).1 m = absVal fuel h m) ∧
+    (∀ ys, kv.mapM (fun p => (absVal fuel h p.2).map (fun w => (p.1, w))) = some ys →
+      absVal (fuel + 1) (h.update (some n) (.obj kv)).1 n = some (.obj ys)) :=
+  setObject_refines hs ha n hn kv hndk hndv hkv fuel
 
 /-- **SetNode is assignment of a whole value**: after an accepted `SetNode(value)` the receiver denotes what `value` denotes — at every
 depth: the clone it takes over denotes what the original denotes (`C14_equal_value`) — and every node that existed before and is
